@@ -243,6 +243,14 @@ class KFoldSplits(Contract):
                     if tier != "thorough" and rng.random() < 0.5:
                         continue
                     yield (X, 1.0, n_splits, shuffle, rng.randint(0, 99), balance), {}
+        # many blocks, very uneven occupancy, few folds: the ideal fold is many times the largest block, so sizes
+        # paired with the wrong blocks (e.g. counted before a shuffle) show as a gross imbalance
+        for _ in range(60 if tier == "thorough" else 16):
+            nb = rng.randint(12, 40)
+            occ = tuple(rng.choice([1, 1, 1, 2, 3, 8, 12, 20]) for _ in range(nb))
+            X = _points_from_occupancy(occ, rng)
+            for shuffle, balance in ((True, True), (False, True), (True, False)):
+                yield (X, 1.0, rng.randint(2, 5), shuffle, rng.randint(0, 99), balance), {}
 
     def ensures(self, a, r):
         splits, warns = r
